@@ -67,12 +67,32 @@ static void trial2(std::mt19937 & rng)
   check<2>("2D subset", f.find(src, dst, sub), src, dst, sub, 20);
 }
 
+// a pair of preconditioned sets reused for a smaller problem: the copy has the size of the new set and the estimate from the preconditioned
+// sets maps the new source points onto the new targets
+static void reuse_preconditioned(std::mt19937 & rng)
+{
+  PreconditionedPointSet<Eigen::Vector2d> ps, pt;
+  for (int n : {60, 25, 40, 7}) {
+    double th = u01(rng) * 3.14; Eigen::Matrix2d R; R << std::cos(th), -std::sin(th), std::sin(th), std::cos(th);
+    Eigen::Vector2d T(u01(rng) * 10, u01(rng) * 10);
+    PointSet<Eigen::Vector2d> src, dst;
+    for (int i = 0; i < n; ++i) { Eigen::Vector2d p(u01(rng) * 10, u01(rng) * 10); src.push_back(p); dst.push_back(R * p + T); }
+    ps.compute(src, 0.1); pt.compute(dst, 0.1);
+    if (ps.get().size() != src.size() || pt.get().size() != dst.size()) FAIL("PreconditionedPointSet reused for %d points (after a larger set): get() has %zu / %zu points", n, ps.get().size(), pt.get().size());
+    FindRigidTransformationBySVD<Eigen::Vector2d> f;
+    Eigen::Matrix3d H = f.find(ps, pt);
+    std::vector<Correspondence> id; for (int i = 0; i < n; ++i) id.emplace_back(i, i);
+    check<2>("2D preconditioned sets, object reused", H, src, dst, id, 20);
+  }
+}
+
 int main(int argc, char ** argv)
 {
   std::map<std::string, std::string> A;
   for (int i = 1; i < argc; ++i) { std::string a(argv[i]); auto p = a.find('='); if (p != std::string::npos) A[a.substr(0, p)] = a.substr(p + 1); }
   std::mt19937 rng(A.count("seed") ? (unsigned)atol(A["seed"].c_str()) : 0);
   for (int k = 0; k < 300; ++k) { trial3(rng, k % 4); trial2(rng); }
+  for (int k = 0; k < 5; ++k) reuse_preconditioned(rng);
   if (fails) { printf("%d failing checks\n", fails); return 1; }
   printf("no failing input found: proper rotation and exact recovery on generic, coplanar, nearly coplanar and clustered sets\n");
   return 0;
